@@ -16,7 +16,11 @@ EDITS = [
     'rename_table', 'move_schema', 'rename_column', 'rename_enum', 'retype_column', 'set_pk', 'set_default', 'set_note', 'set_alias',
     'flip_ref_kind', 'toggle_ref_inline', 'name_ref', 'add_column', 'add_index', 'add_enum_item', 'remove_index', 'rename_target_table',
     'rename_ref_column', 'rename_enum_item', 'unset_flags', 'retype_to_enum', 'set_table_note',
+    'm2m_inline_on', 'm2m_to_many_to_one', 'kind_to_m2m',
 ]
+
+# independent record of what the edits intend for each reference: (kind, inline flag as last assigned)
+REF0 = [['>', True], ['-', False], ['<>', False]]
 
 
 def _base():
@@ -103,6 +107,27 @@ def _apply(db, op, nm, step):
     elif op == 'set_table_note':
         t2.note = Note('tn2 ' + nm)
         t1.header_color = '#aabbcc'
+    elif op == 'm2m_inline_on':
+        r2.inline = True
+    elif op == 'm2m_to_many_to_one':
+        r2.type = '>'
+    elif op == 'kind_to_m2m':
+        r0.type = '<>'
+
+
+def _track(intent, op):
+    if op == 'flip_ref_kind':
+        intent[0][0] = '<'
+        intent[1][0] = '>'
+    elif op == 'toggle_ref_inline':
+        intent[0][1] = False
+        intent[1][1] = True
+    elif op == 'm2m_inline_on':
+        intent[2][1] = True
+    elif op == 'm2m_to_many_to_one':
+        intent[2][0] = '>'
+    elif op == 'kind_to_m2m':
+        intent[0][0] = '<>'
 
 
 def _known_skip(db):
@@ -119,10 +144,13 @@ def edits(D, first=-1, K=1, thorough_elements=False):
         db = _base()
         nm = text_of(a, 'n', K)
         seq = []
+        intent = [list(x) for x in REF0]
         for step in range(D):
             code = first if (step == 0 and first >= 0) else a[f'o{step}']
             seq.append(EDITS[code])
             _apply(db, EDITS[code], nm, step)
+            _track(intent, EDITS[code])
+        db._vp_intent = intent
         return db, seq
 
     def body(a):
@@ -132,6 +160,9 @@ def edits(D, first=-1, K=1, thorough_elements=False):
         except Exception:
             return 'oracle could not rebuild the edited model'
         reached()
+        for r, (kind, inl) in zip(db.refs, db._vp_intent):
+            if r.type != kind or bool(r.inline) != (inl and kind != '<>'):
+                return 'a reference does not show the kind / inline-ness it was last given'
         try:
             if db.dbml != fresh.dbml:
                 return '.dbml of the edited database differs from that of a freshly built database with the same content'
